@@ -361,9 +361,9 @@ Proof.
     destruct (scc_raw N Sp w) as [|a [|b r]] eqn:Er; try reflexivity.
     destruct Hww as [Ha|[]]. subst a.
     destruct (free_has_regulator N Sp w HS Hpc Hw) as (u & Hu & Hr).
-    assert (Hin : In u (scc_raw N Sp w)).
+    assert (Hin : In u [w]).
     { apply HC. apply rt_step. split; [exact Hu|]. split; [exact Hw|exact Hr]. }
-    rewrite Er in Hin. destruct Hin as [Hin|[]]. subst u. rewrite Hr. reflexivity. }
+    destruct Hin as [Hin|[]]. subst u. rewrite Hr. reflexivity. }
   assert (Hgood : forall x, In x (scc_raw N Sp w) -> sgood N Sp x).
   { intros x Hx. apply HC in Hx. apply (sreach_good_l N Sp x w Hx Hw). }
   assert (Hss : same_set (bwd_closure (nvars N) N Sp (scc_raw N Sp w)) (scc_raw N Sp w) = true).
@@ -401,3 +401,876 @@ Proof.
   destruct (nth i Sp None) as [x|] eqn:Ex; [|exfalso; apply (Hfull i Hi); exact Ex].
   apply (proj1 (subspace_nth Y Sp Hl) Hsub i x Ex).
 Qed.
+
+(* ====================================================================== *)
+(* C. grafting the spaces of a component sub-diagram                       *)
+(* ====================================================================== *)
+
+Lemma top_trap : forall N, trap_space N (top_space (nvars N)).
+Proof.
+  intro N. apply trap_space_char; [unfold top_space; apply repeat_length|].
+  intros i v Hn. rewrite nth_top_space in Hn. discriminate.
+Qed.
+
+Section Graft.
+  Variables (N : net) (sp : space) (B : list nat).
+  Hypothesis HtS : trap_space N sp.
+  Hypothesis Hpc : perc_closed N sp.
+  Hypothesis Hc : closed_in N sp B.
+
+  Let M := sub_net N sp B.
+  Let cv (v : nat) : bool := match nth v sp None with Some b => b | None => false end.
+
+  Definition subT (T : space) : Prop := trap_space (sub_net N sp B) T /\ perc_closed (sub_net N sp B) T.
+
+  Lemma G_HS : length sp = nvars N.
+  Proof. apply trap_space_length. exact HtS. Qed.
+
+  Lemma G_Mn : nvars M = nvars N.
+  Proof. apply sub_net_nvars. Qed.
+
+  Lemma G_len : forall T, subT T -> length T = nvars N.
+  Proof. intros T [Ht _]. rewrite <- G_Mn. apply trap_space_length. exact Ht. Qed.
+
+  (* outside the component every node space of the sub-diagram carries the constants *)
+  Lemma G_out : forall T v, subT T -> v < nvars N -> ~ In v B -> nth v T None = Some (cv v).
+  Proof.
+    intros T v HT Hv HvB. pose proof (G_len T HT) as HlT. destruct HT as [Ht Hp].
+    assert (HlT' : length T = nvars M) by (rewrite G_Mn; exact HlT).
+    destruct (nth v T None) as [x|] eqn:Ex.
+    - f_equal. set (s := fill (nvars N) T []).
+      assert (Hs : in_space s T = true) by (apply fill_in_space; exact HlT).
+      assert (Hwf : wf_state M s) by (unfold wf_state, s; rewrite fill_length, G_Mn; reflexivity).
+      pose proof (proj1 (trap_space_char M T HlT') Ht v x Ex s Hwf Hs) as Hu.
+      unfold M in Hu. rewrite (sub_net_upd_out N sp B v s Hv HvB) in Hu. symmetry. exact Hu.
+    - exfalso. apply (Hp v (cv v)); [rewrite sub_net_nvars; exact Hv|exact Ex|].
+      intros s _ _. apply sub_net_upd_out; assumption.
+  Qed.
+
+  (* the root of the sub-diagram *)
+  Definition Rsub : space := percolate_b (sub_net N sp B) (top_space (nvars (sub_net N sp B))).
+
+  Lemma Rsub_subT : subT Rsub.
+  Proof.
+    unfold Rsub, subT. split.
+    - apply percolate_b_trap. apply top_trap.
+    - apply percolate_b_closed. unfold top_space. apply repeat_length.
+  Qed.
+
+  Lemma R_steps : forall X Y, clos_refl_trans space (perc_step M) X Y ->
+    length X = nvars N /\ (forall j, In j B -> nth j X None = None) ->
+    length Y = nvars N /\ (forall j, In j B -> nth j Y None = None).
+  Proof.
+    intros X Y Hst. induction Hst as [x y Hst | x | x y z H1 IH1 H2 IH2].
+    - destruct Hst as [X i v Hi Hn Hcon]. intros [HlX Hfree].
+      assert (Hin : i < nvars N) by (rewrite <- G_Mn; exact Hi).
+      assert (HiB : ~ In i B).
+      { intro HiB. apply (Hpc i v Hin (BM_closed_free N sp B i Hc HiB)).
+        intros t Hwt Ht.
+        set (s' := fill (nvars N) X t).
+        assert (Hs'X : in_space s' X = true) by (apply fill_in_space; exact HlX).
+        assert (Hs'len : length s' = nvars N) by (unfold s'; apply fill_length).
+        assert (Hs'wf : wf_state M s') by (unfold wf_state; rewrite G_Mn; exact Hs'len).
+        pose proof (Hcon s' Hs'wf Hs'X) as Hu. unfold M in Hu.
+        rewrite (sub_net_upd_in_gen N sp B i s' Hin HiB) in Hu. rewrite <- Hu.
+        assert (Hlsp : length s' = length sp) by (rewrite G_HS; exact Hs'len).
+        apply (closed_in_reads_B N sp B i t (impose sp s') Hc HiB Hwt).
+        - unfold wf_state. rewrite impose_length by exact Hlsp. apply G_HS.
+        - exact Ht.
+        - apply impose_in_space. exact Hlsp.
+        - intros j Hj. rewrite (nth_impose sp s' j Hlsp), (BM_closed_free N sp B j Hc Hj).
+          unfold s'. rewrite (nth_fill _ X t j (BM_closed_lt N sp B j Hc Hj)), (Hfree j Hj). reflexivity. }
+      split; [rewrite set_nth_length; exact HlX|].
+      intros j Hj. rewrite nth_set_nth_neq; [apply Hfree; exact Hj|].
+      intro Heq. subst j. contradiction.
+    - auto.
+    - intros H. apply IH2. apply IH1. exact H.
+  Qed.
+
+  Lemma Rsub_free : forall j, In j B -> nth j Rsub None = None.
+  Proof.
+    assert (Hl : length (top_space (nvars M)) = nvars M) by (unfold top_space; apply repeat_length).
+    destruct (R_steps (top_space (nvars M)) Rsub (percolate_b_steps M _ Hl)) as [_ H].
+    - split; [rewrite Hl; apply G_Mn|]. intros j _. apply nth_top_space.
+    - exact H.
+  Qed.
+
+  (* the root of the sub-diagram is strictly inside sp as soon as sp has a free variable outside B *)
+  Lemma Rsub_strict : forall v, v < nvars N -> nth v sp None = None -> ~ In v B -> strict_subspace Rsub sp.
+  Proof.
+    intros v Hv Hn HvB. pose proof (G_len Rsub Rsub_subT) as HlR. split.
+    - apply subspace_nth; [rewrite G_HS; exact HlR|]. intros i x Hi.
+      assert (Hil : i < nvars N) by (rewrite <- G_HS; apply (nth_some_lt sp i x Hi)).
+      rewrite (G_out Rsub i Rsub_subT Hil).
+      + unfold cv. rewrite Hi. reflexivity.
+      + apply BM_mem_nat_false. apply (BM_fixed_not_B N sp B i x Hc Hi).
+    - intro Heq. pose proof (G_out Rsub v Rsub_subT Hv HvB) as H. rewrite Heq, Hn in H. discriminate.
+  Qed.
+
+  Variable A : space.
+  Hypothesis HtA : trap_space N A.
+  Hypothesis HAsp : subspace A sp = true.
+  Hypothesis HAfree : forall v, In v B -> nth v A None = None.
+
+  Definition Pf (T : space) : space := percolate_b N (graft B T A).
+
+  Lemma G_HA : length A = nvars N.
+  Proof. apply trap_space_length. exact HtA. Qed.
+
+  Lemma G_glen : forall T, length (graft B T A) = nvars N.
+  Proof. intro T. rewrite graft_length. apply G_HA. Qed.
+
+  Lemma G_trap : forall T, subT T -> trap_space N (graft B T A).
+  Proof. intros T [Ht _]. apply (graft_trap N sp B T A HtS Hc Ht HtA HAsp HAfree). Qed.
+
+  Lemma G_steps : forall T, subT T -> forall X Y, clos_refl_trans space (perc_step N) X Y ->
+    subspace X sp = true /\ (forall j, In j B -> nth j X None = nth j T None) ->
+    subspace Y sp = true /\ (forall j, In j B -> nth j Y None = nth j T None).
+  Proof.
+    intros T HT X Y Hst. pose proof (G_len T HT) as HlT.
+    induction Hst as [x y Hst | x | x y z H1 IH1 H2 IH2].
+    - destruct Hst as [X i v Hi Hn Hcon]. intros [Hsub HB].
+      assert (HlX : length X = nvars N) by (rewrite (subspace_length X sp Hsub); apply G_HS).
+      assert (HiB : ~ In i B).
+      { intro HiB. destruct HT as [HtT HpT].
+        apply (HpT i v); [rewrite sub_net_nvars; exact Hi|rewrite <- (HB i HiB); exact Hn|].
+        intros s' Hwf' Hs'.
+        assert (Hs'len : length s' = nvars N) by (unfold wf_state in Hwf'; rewrite sub_net_nvars in Hwf'; exact Hwf').
+        assert (Hlsp : length s' = length sp) by (rewrite G_HS; exact Hs'len).
+        rewrite (sub_net_upd_in_gen N sp B i s' Hi HiB).
+        set (t := impose sp s').
+        assert (Htlen : length t = nvars N) by (unfold t; rewrite impose_length by exact Hlsp; apply G_HS).
+        assert (Htsp : in_space t sp = true) by (unfold t; apply impose_in_space; exact Hlsp).
+        set (s2 := fill (nvars N) X t).
+        assert (Hs2X : in_space s2 X = true) by (apply fill_in_space; exact HlX).
+        assert (Hs2wf : wf_state N s2) by (unfold wf_state, s2; apply fill_length).
+        assert (Hs2sp : in_space s2 sp = true).
+        { apply (proj1 (subspace_spec X sp (subspace_length X sp Hsub)) Hsub s2 Hs2X). }
+        rewrite <- (Hcon s2 Hs2wf Hs2X).
+        apply (closed_in_reads_B N sp B i t s2 Hc HiB Htlen Hs2wf Htsp Hs2sp).
+        intros j Hj. pose proof (BM_closed_lt N sp B j Hc Hj) as Hjl.
+        unfold s2. rewrite (nth_fill _ X t j Hjl). rewrite (HB j Hj).
+        destruct (nth j T None) as [y|] eqn:Ey; [|reflexivity].
+        unfold t. rewrite (nth_impose sp s' j Hlsp), (BM_closed_free N sp B j Hc Hj).
+        apply (proj1 (in_space_nth s' T (in_space_length s' T Hs')) Hs' j y Ey). }
+      split.
+      + apply (subspace_trans _ X sp); [apply P_set_nth_subspace; exact Hn|exact Hsub].
+      + intros j Hj. rewrite nth_set_nth_neq; [apply HB; exact Hj|].
+        intro Heq. subst j. contradiction.
+    - auto.
+    - intros H. apply IH2. apply IH1. exact H.
+  Qed.
+
+  Lemma G_graft_B : forall T j, In j B -> nth j (graft B T A) None = nth j T None.
+  Proof.
+    intros T j Hj. rewrite nth_graft by (rewrite G_HA; apply (BM_closed_lt N sp B j Hc Hj)).
+    rewrite (proj2 (BM_mem_nat_In j B) Hj). reflexivity.
+  Qed.
+
+  Lemma G_graft_sub_A : forall T, subspace (graft B T A) A = true.
+  Proof. intro T. apply graft_sub. exact HAfree. Qed.
+
+  Lemma G_B : forall T j, subT T -> In j B -> nth j (Pf T) None = nth j T None.
+  Proof.
+    intros T j HT Hj. unfold Pf.
+    destruct (G_steps T HT (graft B T A) (percolate_b N (graft B T A)) (percolate_b_steps N _ (G_glen T))) as [_ H].
+    - split; [apply (subspace_trans _ A sp); [apply G_graft_sub_A|exact HAsp]|].
+      intros j0 Hj0. apply G_graft_B. exact Hj0.
+    - apply H. exact Hj.
+  Qed.
+
+  Lemma G_sub_A : forall T, subspace (Pf T) A = true.
+  Proof.
+    intro T. unfold Pf. apply (subspace_trans _ (graft B T A) A); [apply percolate_b_sub; apply G_glen|apply G_graft_sub_A].
+  Qed.
+
+  Lemma G_graft_mono : forall T T', length T = length T' -> subspace T T' = true ->
+    subspace (graft B T A) (graft B T' A) = true.
+  Proof.
+    intros T T' Hl Hs. apply subspace_nth; [rewrite !graft_length; reflexivity|].
+    intros i v Hi.
+    assert (Hil : i < length A) by (rewrite <- (graft_length B T' A); apply (nth_some_lt _ i v Hi)).
+    rewrite nth_graft in Hi by exact Hil. rewrite nth_graft by exact Hil.
+    destruct (mem_nat i B); [|exact Hi].
+    apply (proj1 (subspace_nth T T' Hl) Hs i v Hi).
+  Qed.
+
+  Lemma G_mono : forall T T', subT T -> subT T' -> subspace T T' = true -> subspace (Pf T) (Pf T') = true.
+  Proof.
+    intros T T' HT HT' Hs. unfold Pf.
+    apply percolate_mono_weak; [apply G_trap; exact HT|apply G_glen|apply G_glen|].
+    apply G_graft_mono; [rewrite (G_len T HT), (G_len T' HT'); reflexivity|exact Hs].
+  Qed.
+
+  Lemma G_inj : forall T T', subT T -> subT T' -> Pf T = Pf T' -> T = T'.
+  Proof.
+    intros T T' HT HT' Heq.
+    apply (nth_ext T T' None None); [rewrite (G_len T HT), (G_len T' HT'); reflexivity|].
+    intros i Hi. rewrite (G_len T HT) in Hi.
+    destruct (mem_nat i B) eqn:E.
+    - apply BM_mem_nat_In in E. rewrite <- (G_B T i HT E), <- (G_B T' i HT' E), Heq. reflexivity.
+    - apply BM_mem_nat_false in E. rewrite (G_out T i HT Hi E), (G_out T' i HT' Hi E). reflexivity.
+  Qed.
+
+  Lemma G_strict : forall T T', subT T -> subT T' -> strict_subspace T T' -> strict_subspace (Pf T) (Pf T').
+  Proof.
+    intros T T' HT HT' [Hs Hne]. split; [apply G_mono; assumption|].
+    intro Heq. apply Hne. apply G_inj; assumption.
+  Qed.
+
+  Hypothesis HApc : percolate_b N A = A.
+
+  Lemma G_root : Pf Rsub = A.
+  Proof.
+    unfold Pf. rewrite <- HApc at 2. f_equal.
+    apply (nth_ext _ A None None); [apply graft_length|].
+    intros i Hi. rewrite graft_length in Hi. rewrite nth_graft by exact Hi.
+    destruct (mem_nat i B) eqn:E; [|reflexivity].
+    apply BM_mem_nat_In in E. rewrite (Rsub_free i E), (HAfree i E). reflexivity.
+  Qed.
+
+  (* a node of the sub-diagram other than its root is attached strictly inside the attach space *)
+  Lemma G_below : forall T, subT T -> T <> Rsub -> strict_subspace (Pf T) A.
+  Proof.
+    intros T HT Hne. split; [apply G_sub_A|].
+    intro Heq. apply Hne. apply G_inj; [exact HT|apply Rsub_subT|]. rewrite G_root. exact Heq.
+  Qed.
+End Graft.
+
+(* ====================================================================== *)
+(* D. attaching a component sub-diagram                                    *)
+(* ====================================================================== *)
+
+Lemma SI_spaces_inj : forall N d i j, SI N d -> i < size d -> j < size d ->
+  n_space (get d i) = n_space (get d j) -> i = j.
+Proof.
+  intros N d i j (_ & _ & Hnd) Hi Hj Heq.
+  rewrite (NoDup_nth (spaces d) []) in Hnd.
+  apply Hnd; try (rewrite length_spaces; assumption). rewrite !nth_spaces. exact Heq.
+Qed.
+
+Lemma SI_get : forall N d i, SI N d -> i < size d ->
+  trap_space N (n_space (get d i)) /\ percolate_b N (n_space (get d i)) = n_space (get d i).
+Proof. intros N d i H Hi. apply WI_get; [apply H|exact Hi]. Qed.
+
+Lemma strict_sub_trans : forall x y z, strict_subspace x y -> subspace y z = true -> strict_subspace x z.
+Proof.
+  intros x y z [H1 H2] H3. split; [apply (subspace_trans x y z H1 H3)|].
+  intro Heq. subst z. apply H2. apply subspace_antisym; assumption.
+Qed.
+
+Lemma strict_nfixed : forall x y, strict_subspace x y -> nfixed y < nfixed x.
+Proof.
+  intros x y [H1 H2]. destruct (P_subspace_nfixed x y H1) as [Hle Heq].
+  destruct (le_lt_dec (nfixed x) (nfixed y)) as [Hl|Hl]; [exfalso; apply H2; apply Heq; exact Hl|exact Hl].
+Qed.
+
+Record senv (N : net) (sp : space) (B : list nat) (rest : list (list nat)) (sub : sd) : Prop := {
+  se_trap : trap_space N sp;
+  se_pc : perc_closed N sp;
+  se_closed : closed_in N sp B;
+  se_rest : forall B', In B' rest -> closed_in N sp B' /\ disj B B';
+  se_sub : SI (sub_net N sp B) sub;
+  se_root : n_space (get sub 0) = Rsub N sp B
+}.
+
+Lemma senv_attach_env : forall N sp B rest sub, senv N sp B rest sub -> attach_env N sp B rest sub.
+Proof.
+  intros N sp B rest sub H. constructor.
+  - apply (se_trap _ _ _ _ _ H).
+  - apply (se_pc _ _ _ _ _ H).
+  - apply (se_closed _ _ _ _ _ H).
+  - apply (se_rest _ _ _ _ _ H).
+  - intros i Hi. apply (SI_get _ sub i (se_sub _ _ _ _ _ H) Hi).
+Qed.
+
+Lemma senv_subT : forall N sp B rest sub i, senv N sp B rest sub -> i < size sub ->
+  subT N sp B (n_space (get sub i)).
+Proof.
+  intros N sp B rest sub i H Hi. destruct (SI_get _ sub i (se_sub _ _ _ _ _ H) Hi) as [Ht Hp].
+  split; [exact Ht|]. apply (proj1 (percolate_b_fixed_iff_closed _ _ (trap_space_length _ _ Ht)) Hp).
+Qed.
+
+Lemma seq_S_cons : forall k n, seq k (S n) = k :: seq (S k) n.
+Proof. reflexivity. Qed.
+
+(* attach_nodes_inv with positions: the i-th step extends a map of length i *)
+Lemma attach_nodes_inv_pos : forall (P : sd -> list nat -> list nat -> Prop) N cm B sub A lo hi,
+  (forall i d map_ mins, lo <= i < hi -> length map_ = i -> P d map_ mins ->
+     P (fst (fst (an_step N B sub A i d mins))) (map_ ++ [snd (fst (an_step N B sub A i d mins))])
+       (snd (an_step N B sub A i d mins)) /\
+     P (set_empty_seeds (fst (fst (an_step N B sub A i d mins))) (snd (fst (an_step N B sub A i d mins))))
+       (map_ ++ [snd (fst (an_step N B sub A i d mins))]) (snd (an_step N B sub A i d mins))) ->
+  forall n k d map_ mins tape, lo <= k -> k + n <= hi -> length map_ = k -> P d map_ mins ->
+  exists m mi, P (fst (fst (attach_nodes N cm B sub A (seq k n) d map_ mins tape))) m mi /\
+    (forall m' mi', snd (fst (attach_nodes N cm B sub A (seq k n) d map_ mins tape)) = Some (m', mi') ->
+                    m' = m /\ mi' = mi /\ length m' = k + n).
+Proof.
+  intros P N cm B sub A lo hi Hstep n. induction n as [|n IH]; intros k d map_ mins tape Hlo Hhi Hlen HP.
+  - simpl seq. rewrite attach_nodes_nil. simpl. exists map_, mins. split; [exact HP|].
+    intros m' mi' H. injection H as H1 H2. subst m' mi'. split; [reflexivity|]. split; [reflexivity|lia].
+  - rewrite seq_S_cons, attach_nodes_cons.
+    assert (Hk : lo <= k < hi) by lia.
+    destruct (Hstep k d map_ mins Hk Hlen HP) as [H1 H2].
+    cbv zeta.
+    assert (Hlen' : length (map_ ++ [snd (fst (an_step N B sub A k d mins))]) = S k).
+    { rewrite app_length. simpl. lia. }
+    assert (Hfin : forall d2 t,
+       P d2 (map_ ++ [snd (fst (an_step N B sub A k d mins))]) (snd (an_step N B sub A k d mins)) ->
+       exists m mi, P (fst (fst (attach_nodes N cm B sub A (seq (S k) n) d2
+                         (map_ ++ [snd (fst (an_step N B sub A k d mins))]) (snd (an_step N B sub A k d mins)) t))) m mi /\
+         (forall m' mi', snd (fst (attach_nodes N cm B sub A (seq (S k) n) d2
+                         (map_ ++ [snd (fst (an_step N B sub A k d mins))]) (snd (an_step N B sub A k d mins)) t)) = Some (m', mi') ->
+                    m' = m /\ mi' = mi /\ length m' = k + S n)).
+    { intros d2 t HP2.
+      assert (Hlo' : lo <= S k) by lia. assert (Hhi' : S k + n <= hi) by lia.
+      destruct (IH (S k) d2 _ _ t Hlo' Hhi' Hlen' HP2) as (m & mi & Hm & Heq).
+      exists m, mi. split; [exact Hm|]. intros m' mi' E. destruct (Heq m' mi' E) as (E1 & E2 & E3).
+      split; [exact E1|]. split; [exact E2|lia]. }
+    destruct cm.
+    + destruct tape as [|[[|]|] t].
+      * simpl. eexists; eexists. split; [exact H1|]. intros m' mi' H. discriminate.
+      * apply Hfin. exact H2.
+      * apply Hfin. exact H1.
+      * simpl. eexists; eexists. split; [exact H1|]. intros m' mi' H. discriminate.
+    + apply Hfin. exact H1.
+Qed.
+
+Lemma an_step_SI : forall N sp B rest sub A i d mins, senv N sp B rest sub -> i < size sub ->
+  trap_space N A -> subspace A sp = true -> (forall v, In v B -> nth v A None = None) -> SI N d ->
+  SI N (fst (fst (an_step N B sub A i d mins))) /\
+  snd (fst (an_step N B sub A i d mins)) < size (fst (fst (an_step N B sub A i d mins))) /\
+  n_space (get (fst (fst (an_step N B sub A i d mins))) (snd (fst (an_step N B sub A i d mins)))) =
+    Pf N B A (n_space (get sub i)) /\
+  (forall m, In m (snd (an_step N B sub A i d mins)) -> In m mins \/ m = snd (fst (an_step N B sub A i d mins))).
+Proof.
+  intros N sp B rest sub A i d mins Henv Hi HtA HAsp HAfree Hsi.
+  pose proof (senv_subT N sp B rest sub i Henv Hi) as HT.
+  pose proof (G_trap N sp B (se_trap _ _ _ _ _ Henv) (se_closed _ _ _ _ _ Henv) A HtA HAsp HAfree _ HT) as HtG.
+  unfold an_step. unfold Pf.
+  destruct (SI_ensure_node_full N d None (graft B (n_space (get sub i)) A) Hsi HtG) as (H1 & H2 & H3);
+    [intros p E; discriminate|].
+  destruct (ensure_node N d None (graft B (n_space (get sub i)) A)) as [d1 mid]. simpl in H1, H2, H3.
+  destruct (is_minimal sub i); simpl.
+  - split; [exact H1|]. split; [exact H2|]. split; [exact H3|].
+    intros m Hm. apply in_app_or in Hm. destruct Hm as [Hm|[Hm|[]]]; [left; exact Hm|right; symmetry; exact Hm].
+  - split; [apply SI_upd_flag; [constructor|apply SI_discard_if_stub; exact H1]|].
+    assert (He : extends d1 (upd_node (discard_if_stub d1 mid) mid (fun y => set_exp y true))).
+    { eapply extends_trans; [apply discard_if_stub_extends|apply upd_flag_extends; constructor]. }
+    split; [apply (extends_lt d1 _ mid He H2)|]. split; [rewrite (extends_space d1 _ mid He H2); exact H3|].
+    intros m Hm. left. exact Hm.
+Qed.
+
+Lemma attach_edges_SI : forall N sp B rest sub A map_, senv N sp B rest sub ->
+  trap_space N A -> subspace A sp = true -> (forall v, In v B -> nth v A None = None) ->
+  forall pairs d, SI N d ->
+  (forall a b, In (a, b) pairs -> a < size sub /\ b < size sub /\
+               strict_subspace (n_space (get sub b)) (n_space (get sub a))) ->
+  (forall j, j < size sub -> nth j map_ 0 < size d /\
+             n_space (get d (nth j map_ 0)) = Pf N B A (n_space (get sub j))) ->
+  exists d2, attach_edges B sub map_ pairs d = Some d2 /\ SI N d2 /\ extends d d2.
+Proof.
+  intros N sp B rest sub A map_ Henv HtA HAsp HAfree pairs.
+  induction pairs as [|[a b] r IH]; intros d Hsi Hp Hmap.
+  - rewrite attach_edges_nil. exists d. split; [reflexivity|]. split; [exact Hsi|apply extends_refl].
+  - rewrite attach_edges_cons.
+    destruct (Hp a b (or_introl eq_refl)) as (Ha & Hb & Hst).
+    destruct (Hmap a Ha) as [Ma1 Ma2]. destruct (Hmap b Hb) as [Mb1 Mb2].
+    assert (Hstrict : strict_subspace (n_space (get d (nth b map_ 0))) (n_space (get d (nth a map_ 0)))).
+    { rewrite Ma2, Mb2.
+      apply (G_strict N sp B (se_trap _ _ _ _ _ Henv) (se_closed _ _ _ _ _ Henv) A HtA HAsp HAfree);
+        [apply (senv_subT N sp B rest sub b Henv Hb)|apply (senv_subT N sp B rest sub a Henv Ha)|exact Hst]. }
+    destruct (Nat.eqb (nth a map_ 0) (nth b map_ 0)) eqn:E.
+    + exfalso. apply Nat.eqb_eq in E. rewrite E in Hstrict. destruct Hstrict as [_ Hne]. apply Hne. reflexivity.
+    + set (d' := ensure_edge d (nth a map_ 0) (nth b map_ 0) (only_on B (first_motif sub a b))).
+      destruct (IH d') as (d2 & E2 & S2 & X2).
+      * apply SI_ensure_edge; assumption.
+      * intros a0 b0 Hin. apply Hp. right. exact Hin.
+      * intros j Hj. destruct (Hmap j Hj) as [M1 M2]. unfold d'.
+        rewrite size_ensure_edge, n_space_ensure_edge. split; assumption.
+      * exists d2. split; [exact E2|]. split; [exact S2|].
+        eapply extends_trans; [apply ensure_edge_extends|exact X2].
+Qed.
+
+Lemma as_close_res : forall cm d2 a mins tape1,
+  snd (fst (fst (as_close cm d2 a mins tape1))) = RUnit \/
+  snd (fst (fst (as_close cm d2 a mins tape1))) = RRaised ErrLimit.
+Proof.
+  intros. unfold as_close. destruct cm; [destruct tape1 as [|[[|]|] t]|]; simpl; auto.
+Qed.
+
+Lemma attach_scc_SI : forall N cm sp B rest sub d a tape, senv N sp B rest sub -> SI N d ->
+  good_at sp (B :: rest) d a ->
+  SI N (fst (fst (fst (attach_scc N cm B sub d a tape)))) /\
+  (snd (fst (fst (attach_scc N cm B sub d a tape))) = RUnit \/
+   snd (fst (fst (attach_scc N cm B sub d a tape))) = RRaised ErrLimit) /\
+  (forall m, In m (snd (fst (attach_scc N cm B sub d a tape))) ->
+     m < size (fst (fst (fst (attach_scc N cm B sub d a tape)))) /\
+     ((size sub = 1 /\ m = a) \/
+      strict_subspace (n_space (get (fst (fst (fst (attach_scc N cm B sub d a tape)))) m)) (n_space (get d a)))).
+Proof.
+  intros N cm sp B rest sub d a tape Henv Hsi Hga.
+  rewrite attach_scc_unfold.
+  destruct (Nat.eqb (size sub) 1) eqn:Esz; simpl.
+  { split; [exact Hsi|]. split; [left; reflexivity|]. intros m [Hm|[]]. subst m.
+    split; [apply Hga|]. left. split; [apply Nat.eqb_eq; exact Esz|reflexivity]. }
+  pose proof Hga as (Ha & HAsp & HAfree0).
+  destruct (SI_get N d a Hsi Ha) as [HtA HApc].
+  set (A := n_space (get d a)) in *.
+  assert (HAfree : forall v, In v B -> nth v A None = None).
+  { intros v Hv. apply (HAfree0 B v); [left; reflexivity|exact Hv]. }
+  pose proof (se_sub _ _ _ _ _ Henv) as Hsub.
+  assert (Hpos : 0 < size sub) by (destruct Hsub as ((Hp & _) & _); exact Hp).
+  pose proof (G_root N sp B (se_trap _ _ _ _ _ Henv) (se_pc _ _ _ _ _ Henv) (se_closed _ _ _ _ _ Henv) A HAfree HApc) as Hroot.
+  set (T := fun j => n_space (get sub j)).
+  set (P := fun (d' : sd) (map_ mins : list nat) =>
+              SI N d' /\ extends d d' /\
+              (forall j, j < length map_ -> nth j map_ 0 < size d' /\ n_space (get d' (nth j map_ 0)) = Pf N B A (T j)) /\
+              (forall m, In m mins -> m < size d' /\ exists j, 1 <= j < size sub /\ n_space (get d' m) = Pf N B A (T j))).
+  destruct (attach_nodes_inv_pos P N cm B sub A 1 (size sub)) with (n := size sub - 1) (k := 1) (d := d)
+    (map_ := [a]) (mins := @nil nat) (tape := tape) as (m & mi & (Hs1 & He1 & Hmap & Hmins) & Heq).
+  - intros i d0 map_ mins Hi Hlen (Hs0 & He0 & Hmap0 & Hmins0).
+    assert (Hil : i < size sub) by lia.
+    destruct (an_step_SI N sp B rest sub A i d0 mins Henv Hil HtA HAsp HAfree Hs0) as (Hs2 & Hmid & Hspm & Hm2).
+    pose proof (an_step_extends N B sub A i d0 mins) as He2.
+    assert (K : forall d', SI N d' -> extends (fst (fst (an_step N B sub A i d0 mins))) d' ->
+              P d' (map_ ++ [snd (fst (an_step N B sub A i d0 mins))]) (snd (an_step N B sub A i d0 mins))).
+    { intros d' Hs' He'.
+      assert (He0' : extends d0 d') by (eapply extends_trans; eassumption).
+      split; [exact Hs'|]. split; [eapply extends_trans; eassumption|]. split.
+      - intros j Hj. rewrite app_length in Hj. simpl in Hj.
+        destruct (Nat.eq_dec j (length map_)) as [Ej|Ej].
+        + subst j. rewrite app_nth2 by lia. rewrite Nat.sub_diag. simpl.
+          split; [apply (extends_lt _ d' _ He' Hmid)|].
+          rewrite (extends_space _ d' _ He' Hmid), Hspm, Hlen. reflexivity.
+        + assert (Hj' : j < length map_) by lia. rewrite app_nth1 by exact Hj'.
+          destruct (Hmap0 j Hj') as [M1 M2].
+          split; [apply (extends_lt d0 d' _ He0' M1)|]. rewrite (extends_space d0 d' _ He0' M1). exact M2.
+      - intros x Hx. destruct (Hm2 x Hx) as [Hx1|Hx1].
+        + destruct (Hmins0 x Hx1) as (M1 & j & Hj & M2).
+          split; [apply (extends_lt d0 d' _ He0' M1)|]. exists j. split; [exact Hj|].
+          rewrite (extends_space d0 d' _ He0' M1). exact M2.
+        + subst x. split; [apply (extends_lt _ d' _ He' Hmid)|]. exists i. split; [lia|].
+          rewrite (extends_space _ d' _ He' Hmid). exact Hspm. }
+    split.
+    + apply K; [exact Hs2|apply extends_refl].
+    + apply K; [apply SI_set_empty_seeds; exact Hs2|apply set_empty_seeds_extends].
+  - lia.
+  - lia.
+  - reflexivity.
+  - split; [exact Hsi|]. split; [apply extends_refl|]. split.
+    + intros j Hj. simpl in Hj. assert (j = 0) by lia. subst j. simpl. split; [exact Ha|].
+      unfold T. rewrite (se_root _ _ _ _ _ Henv), Hroot. reflexivity.
+    + intros x [].
+  - cbv zeta. fold A.
+    set (r := attach_nodes N cm B sub A (seq 1 (size sub - 1)) d [a] [] tape) in *.
+    destruct (snd (fst r)) as [[map_ mins]|] eqn:Er.
+    2:{ simpl. split; [exact Hs1|]. split; [right; reflexivity|intros x []]. }
+    destruct (Heq map_ mins eq_refl) as (E1 & E2 & E3). subst m mi.
+    assert (Hlm : length map_ = size sub) by lia.
+    destruct (attach_edges_SI N sp B rest sub A map_ Henv HtA HAsp HAfree
+                (flat_map (fun a0 => map (fun b => (a0, b)) (successors sub a0)) (seq 0 (size sub)))
+                (fst (fst r)) Hs1) as (d2 & Ee & Hs2 & He2).
+    + intros x y Hin. apply in_flat_map in Hin. destruct Hin as (x0 & Hx0 & Hin).
+      apply in_map_iff in Hin. destruct Hin as (y0 & Eq & Hy0). injection Eq as Eq1 Eq2. subst x0 y0.
+      apply in_seq in Hx0. split; [lia|].
+      apply (SI_successors_strict _ sub x y Hsub Hy0).
+    + intros j Hj. apply Hmap. lia.
+    + rewrite Ee.
+      destruct (as_close_cases (fun d' => SI N d' /\ extends d2 d') cm d2 a mins (snd r)) as [[Hs3 He3] Hsubm].
+      * intros d0 f Hf [Hs0 He0]. split; [apply SI_upd_flag; assumption|].
+        eapply extends_trans; [exact He0|apply upd_flag_extends; exact Hf].
+      * split; [exact Hs2|apply extends_refl].
+      * split; [exact Hs3|]. split; [apply as_close_res|].
+        intros x Hx. apply Hsubm in Hx. destruct (Hmins x Hx) as (M1 & j & Hj & M2).
+        assert (Hext : extends (fst (fst r)) (fst (fst (fst (as_close cm d2 a mins (snd r)))))).
+        { eapply extends_trans; eassumption. }
+        split; [apply (extends_lt _ _ x Hext M1)|]. right.
+        rewrite (extends_space _ _ x Hext M1), M2.
+        apply (G_below N sp B (se_trap _ _ _ _ _ Henv) (se_pc _ _ _ _ _ Henv) (se_closed _ _ _ _ _ Henv)
+                 A HtA HAsp HAfree HApc).
+        -- apply (senv_subT N sp B rest sub j Henv). lia.
+        -- unfold T. rewrite <- (se_root _ _ _ _ _ Henv). intro Hc.
+           assert (j = 0) by (apply (SI_spaces_inj _ sub j 0 Hsub); [lia|exact Hpos|exact Hc]). lia.
+Qed.
+
+Lemma attach_all_size1 : forall N cm B sub ats d acc tape, size sub = 1 ->
+  attach_all N cm B sub d ats acc tape = (d, RUnit, acc ++ ats, tape).
+Proof.
+  intros N cm B sub ats. induction ats as [|a r IH]; intros d acc tape Hsz.
+  - rewrite attach_all_nil, app_nil_r. reflexivity.
+  - rewrite attach_all_cons, attach_scc_unfold. rewrite (proj2 (Nat.eqb_eq _ _) Hsz). cbv zeta. simpl.
+    rewrite (IH d (acc ++ [a]) tape Hsz), <- app_assoc. reflexivity.
+Qed.
+
+Lemma attach_all_SI : forall N cm sp B rest sub, senv N sp B rest sub -> size sub <> 1 ->
+  forall ats d acc tape, SI N d ->
+  (forall a, In a ats -> good_at sp (B :: rest) d a) ->
+  SI N (fst (fst (fst (attach_all N cm B sub d ats acc tape)))) /\
+  (snd (fst (fst (attach_all N cm B sub d ats acc tape))) = RUnit \/
+   snd (fst (fst (attach_all N cm B sub d ats acc tape))) = RRaised ErrLimit) /\
+  (forall m, In m (snd (fst (attach_all N cm B sub d ats acc tape))) -> In m acc \/
+     (m < size (fst (fst (fst (attach_all N cm B sub d ats acc tape)))) /\
+      strict_subspace (n_space (get (fst (fst (fst (attach_all N cm B sub d ats acc tape)))) m)) sp)).
+Proof.
+  intros N cm sp B rest sub Henv Hsz ats. induction ats as [|a r IH]; intros d acc tape Hsi Hats.
+  - rewrite attach_all_nil. simpl. split; [exact Hsi|]. split; [left; reflexivity|]. intros m Hm. left. exact Hm.
+  - rewrite attach_all_cons. cbv zeta.
+    pose proof (Hats a (or_introl eq_refl)) as Hga.
+    destruct (attach_scc_SI N cm sp B rest sub d a tape Henv Hsi Hga) as (Hs1 & Hr1 & Hm1).
+    pose proof (attach_scc_extends N cm B sub d a tape) as He1.
+    set (x := attach_scc N cm B sub d a tape) in *.
+    assert (Hstop : forall res, res = RUnit \/ res = RRaised ErrLimit ->
+              SI N (fst (fst (fst (fst (fst (fst x)), res, acc, snd x)))) /\
+              (snd (fst (fst (fst (fst (fst x)), res, acc, snd x))) = RUnit \/
+               snd (fst (fst (fst (fst (fst x)), res, acc, snd x))) = RRaised ErrLimit) /\
+              (forall m, In m (snd (fst (fst (fst (fst x)), res, acc, snd x))) -> In m acc \/
+                (m < size (fst (fst (fst (fst (fst (fst x)), res, acc, snd x)))) /\
+                 strict_subspace (n_space (get (fst (fst (fst (fst (fst (fst x)), res, acc, snd x)))) m)) sp))).
+    { intros res Hres. simpl. split; [exact Hs1|]. split; [exact Hres|]. intros m Hm. left. exact Hm. }
+    destruct Hr1 as [Hr1|Hr1]; rewrite Hr1; [|apply Hstop; right; reflexivity].
+    destruct (IH (fst (fst (fst x))) (acc ++ snd (fst x)) (snd x) Hs1) as (Hs2 & Hr2 & Hm2).
+    + intros a0 Ha0. apply (good_at_extends sp (B :: rest) d _ a0 He1). apply Hats. right. exact Ha0.
+    + split; [exact Hs2|]. split; [exact Hr2|].
+      intros m Hm. destruct (Hm2 m Hm) as [Hin|Hin]; [|right; exact Hin].
+      apply in_app_or in Hin. destruct Hin as [Hin|Hin]; [left; exact Hin|right].
+      destruct (Hm1 m Hin) as [Hlt [[Hc _]|Hst]]; [contradiction|].
+      pose proof (attach_all_extends N cm B sub r (fst (fst (fst x))) (acc ++ snd (fst x)) (snd x)) as He2.
+      split; [apply (extends_lt _ _ m He2 Hlt)|].
+      rewrite (extends_space _ _ m He2 Hlt).
+      apply (strict_sub_trans _ _ sp Hst). apply Hga.
+Qed.
+
+(* ====================================================================== *)
+(* E. the components of one node                                           *)
+(* ====================================================================== *)
+
+Definition exp_good (F : nat) (expander : expander_t) : Prop :=
+  forall N' d' t', SI N' d' ->
+    SI N' (fst (fst (expander N' d' t'))) /\ extends d' (fst (fst (expander N' d' t'))) /\
+    snd (fst (expander N' d' t')) <> RRaised ErrAssert /\
+    (forall m, nvars N' <= nfixed (n_space (get d' 0)) + m -> m + 2 <= F ->
+               snd (fst (expander N' d' t')) <> RFuel).
+
+Lemma Rsub_nfixed_le : forall N sp B, nfixed (Rsub N sp B) <= nvars N.
+Proof.
+  intros N sp B. pose proof (P_nfixed_le_length (Rsub N sp B)) as H.
+  rewrite (G_len N sp B _ (Rsub_subT N sp B)) in H. exact H.
+Qed.
+
+Lemma scc_components_SI : forall expander F N cm sp x k, exp_good F expander ->
+  trap_space N sp -> perc_closed N sp -> nvars N <= nfixed sp + k ->
+  forall comps d ats tape,
+  (forall B, In B comps -> closed_in N sp B) -> pw_disj comps -> SI N d ->
+  (forall a, In a ats -> good_at sp comps d a) ->
+  (ats = [x] \/ forall m, In m ats -> strict_subspace (n_space (get d m)) sp) ->
+  (forall B, In B comps -> nfixed sp < nfixed (Rsub N sp B)) ->
+  SI N (fst (fst (fst (scc_components expander N cm sp comps d ats tape)))) /\
+  snd (fst (fst (scc_components expander N cm sp comps d ats tape))) <> RRaised ErrAssert /\
+  (k + 1 <= F -> snd (fst (fst (scc_components expander N cm sp comps d ats tape))) <> RFuel) /\
+  (forall m, In m (snd (fst (scc_components expander N cm sp comps d ats tape))) ->
+     m < size (fst (fst (fst (scc_components expander N cm sp comps d ats tape))))) /\
+  (snd (fst (scc_components expander N cm sp comps d ats tape)) = [x] \/
+   forall m, In m (snd (fst (scc_components expander N cm sp comps d ats tape))) ->
+     strict_subspace (n_space (get (fst (fst (fst (scc_components expander N cm sp comps d ats tape)))) m)) sp).
+Proof.
+  intros expander F N cm sp x k Hexp HtS Hpc Hk comps.
+  induction comps as [|B r IH]; intros d ats tape Hcl Hpw Hsi Hats Hinv Hnf.
+  - rewrite scc_components_nil. simpl. split; [exact Hsi|]. split; [discriminate|]. split; [discriminate|].
+    split; [intros m Hm; apply (Hats m Hm)|exact Hinv].
+  - rewrite scc_components_cons. cbv zeta.
+    set (Nsub := sub_net N sp B).
+    destruct (Hexp Nsub (init Nsub) tape (init_SI Nsub)) as (Hsub & Hesub & Hna & Hnf0).
+    set (e := expander Nsub (init Nsub) tape) in *.
+    assert (Hfuel : k + 1 <= F -> snd (fst e) <> RFuel).
+    { intro HF. apply (Hnf0 (k - 1)).
+      - rewrite init_root_space. unfold Nsub.
+        change (percolate_b (sub_net N sp B) (top_space (nvars (sub_net N sp B)))) with (Rsub N sp B).
+        rewrite sub_net_nvars.
+        pose proof (Hnf B (or_introl eq_refl)). pose proof (Rsub_nfixed_le N sp B). lia.
+      - pose proof (Hnf B (or_introl eq_refl)). pose proof (Rsub_nfixed_le N sp B). lia. }
+    assert (Hstop : forall (rs : result) (t : tape_t), rs <> RRaised ErrAssert -> (k + 1 <= F -> rs <> RFuel) ->
+       SI N (fst (fst (fst (d, rs, ats, t)))) /\ snd (fst (fst (d, rs, ats, t))) <> RRaised ErrAssert /\
+       (k + 1 <= F -> snd (fst (fst (d, rs, ats, t))) <> RFuel) /\
+       (forall m, In m (snd (fst (d, rs, ats, t))) -> m < size (fst (fst (fst (d, rs, ats, t))))) /\
+       (snd (fst (d, rs, ats, t)) = [x] \/
+        forall m, In m (snd (fst (d, rs, ats, t))) -> strict_subspace (n_space (get (fst (fst (fst (d, rs, ats, t)))) m)) sp)).
+    { intros rs t H1 H2. simpl. split; [exact Hsi|]. split; [exact H1|]. split; [exact H2|].
+      split; [intros m Hm; apply (Hats m Hm)|exact Hinv]. }
+    destruct (snd (fst e)) as [|[|]| | | |] eqn:Ers; try (apply Hstop; [exact Hna|exact Hfuel]).
+    destruct Hpw as [Hdis Hpw'].
+    assert (Henv : senv N sp B r (fst (fst e))).
+    { constructor; [exact HtS|exact Hpc|apply Hcl; left; reflexivity| |exact Hsub|].
+      - intros B' HB'. split; [apply Hcl; right; exact HB'|apply Hdis; exact HB'].
+      - assert (Hp0 : 0 < size (init Nsub)) by (apply (swf_size _ _ (init_SWF Nsub))).
+        rewrite (extends_space _ _ 0 Hesub Hp0), init_root_space. reflexivity. }
+    assert (Hcl' : forall B', In B' r -> closed_in N sp B') by (intros B' HB'; apply Hcl; right; exact HB').
+    assert (Hnf' : forall B', In B' r -> nfixed sp < nfixed (Rsub N sp B')) by (intros B' HB'; apply Hnf; right; exact HB').
+    destruct (Nat.eq_dec (size (fst (fst e))) 1) as [Hsz|Hsz].
+    + rewrite (attach_all_size1 N cm B (fst (fst e)) ats d [] (snd e) Hsz). simpl.
+      apply IH; try assumption.
+      intros a Ha. apply (good_at_weaken sp B r d a). apply Hats. exact Ha.
+    + destruct (attach_all_SI N cm sp B r (fst (fst e)) Henv Hsz ats d [] (snd e) Hsi Hats) as (Hs1 & Hr1 & Hm1).
+      destruct (attach_all_WI N cm sp B r (fst (fst e)) (senv_attach_env _ _ _ _ _ Henv) ats d [] (snd e)
+                  (SI_WI N d Hsi) Hats) as [_ Hg1]; [intros a []|].
+      set (y := attach_all N cm B (fst (fst e)) d ats [] (snd e)) in *.
+      assert (Hstrict : forall m, In m (snd (fst y)) -> strict_subspace (n_space (get (fst (fst (fst y))) m)) sp).
+      { intros m Hm. destruct (Hm1 m Hm) as [[]|[_ H]]. exact H. }
+      destruct Hr1 as [Hr1|Hr1]; rewrite Hr1.
+      * apply IH; try assumption. right. exact Hstrict.
+      * simpl. split; [exact Hs1|]. split; [discriminate|]. split; [discriminate|].
+        split; [intros m Hm; apply (Hg1 m Hm)|right; exact Hstrict].
+Qed.
+
+(* ====================================================================== *)
+(* F. the level loop                                                       *)
+(* ====================================================================== *)
+
+Definition cur_ok (N : net) (k : nat) (d : sd) (cur : list nat) : Prop :=
+  forall x, In x cur -> x < size d /\ nvars N <= nfixed (n_space (get d x)) + k.
+Definition nxt_ok (N : net) (k : nat) (d : sd) (next : list nat) : Prop :=
+  forall y, In y next -> y < size d /\ nvars N + 1 <= nfixed (n_space (get d y)) + k.
+
+Lemma cur_ok_extends : forall N k d d' l, extends d d' -> cur_ok N k d l -> cur_ok N k d' l.
+Proof.
+  intros N k d d' l He H x Hx. destruct (H x Hx) as [H1 H2].
+  split; [apply (extends_lt d d' x He H1)|]. rewrite (extends_space d d' x He H1). exact H2.
+Qed.
+
+Lemma nxt_ok_extends : forall N k d d' l, extends d d' -> nxt_ok N k d l -> nxt_ok N k d' l.
+Proof.
+  intros N k d d' l He H x Hx. destruct (H x Hx) as [H1 H2].
+  split; [apply (extends_lt d d' x He H1)|]. rewrite (extends_space d d' x He H1). exact H2.
+Qed.
+
+Lemma nxt_ok_union : forall N k d a b, nxt_ok N k d a -> nxt_ok N k d b -> nxt_ok N k d (union_nat a b).
+Proof.
+  intros N k d a b Ha Hb y Hy. apply union_nat_In in Hy. destruct Hy as [Hy|Hy]; [apply Ha|apply Hb]; exact Hy.
+Qed.
+
+Definition lvl_ok (N : net) (F k : nat) (o : lvl_out) : Prop :=
+  match o with
+  | LStop d r next _ => SI N d /\ nxt_ok N k d next /\ r <> RRaised ErrAssert /\ (k + 1 <= F -> r <> RFuel)
+  | LCont d next _ => SI N d /\ nxt_ok N k d next
+  end.
+
+Lemma lvl_succ_SI : forall N cfg F k d x next tape, SI N d -> x < size d ->
+  nvars N <= nfixed (n_space (get d x)) + k -> nxt_ok N k d next ->
+  lvl_ok N F k (lvl_succ N cfg d x next tape).
+Proof.
+  intros N cfg F k d x next tape Hsi Hx Hk Hnext. unfold lvl_succ. cbv zeta.
+  destruct (SI_node_successors N cfg d x Hsi Hx) as (Hs1 & Hsucc & Hres).
+  pose proof (node_successors_extends N cfg d x) as He.
+  pose proof (nxt_ok_extends N k d _ next He Hnext) as Hn1.
+  destruct Hres as [Hr|Hr]; rewrite Hr; simpl.
+  - split; [exact Hs1|]. apply nxt_ok_union; [exact Hn1|].
+    intros y Hy. destruct (Hsucc y Hy) as [H1 H2]. split; [exact H1|].
+    pose proof (strict_nfixed _ _ H2). lia.
+  - split; [exact Hs1|]. split; [exact Hn1|]. split; discriminate.
+Qed.
+
+Lemma two_comps_other : forall (c1 c2 : list nat) cr B, pw_disj (c1 :: c2 :: cr) -> In B (c1 :: c2 :: cr) ->
+  exists B', In B' (c1 :: c2 :: cr) /\ disj B B'.
+Proof.
+  intros c1 c2 cr B [H1 _] [HB|HB].
+  - subst B. exists c2. split; [right; left; reflexivity|]. apply H1. left. reflexivity.
+  - exists c1. split; [left; reflexivity|]. intros v Hv1 Hv2. apply (H1 B HB v Hv2 Hv1).
+Qed.
+
+Lemma lvl_one_SI : forall expander F N cfg cm k d x next tape, exp_good F expander -> SI N d -> x < size d ->
+  nvars N <= nfixed (n_space (get d x)) + k -> nxt_ok N k d next ->
+  lvl_ok N F k (lvl_one expander N cfg cm d x next tape).
+Proof.
+  intros expander F N cfg cm k d x next tape Hexp Hsi Hx Hk Hnext. unfold lvl_one. cbv zeta.
+  destruct (SI_get N d x Hsi Hx) as [HtS Hperc].
+  pose proof (trap_space_length N _ HtS) as HS.
+  pose proof (proj1 (percolate_b_fixed_iff_closed N _ HS) Hperc) as Hpc.
+  destruct (source_sccs_items N (n_space (get d x))) as [Hitems Hpw].
+  destruct (source_sccs N (n_space (get d x))) as [|c1 [|c2 cr]] eqn:Ecomps.
+  - destruct (SI_node_successors N cfg d x Hsi Hx) as (Hs1 & Hsucc & Hres).
+    pose proof (node_successors_extends N cfg d x) as He.
+    pose proof (nxt_ok_extends N k d _ next He Hnext) as Hn1.
+    destruct Hres as [Hr|Hr]; rewrite Hr; simpl.
+    + destruct (snd (node_successors N cfg d x)) as [|s0 sr] eqn:Es; simpl; [split; assumption|].
+      exfalso. destruct (Hsucc s0 (or_introl eq_refl)) as [_ Hst].
+      apply (full_no_strict _ _ (fun v Hv => no_source_scc_full N _ v HS Hpc Ecomps ltac:(rewrite <- HS; exact Hv)) Hst).
+    + split; [exact Hs1|]. split; [exact Hn1|]. split; discriminate.
+  - apply lvl_succ_SI; assumption.
+  - set (comps := c1 :: c2 :: cr) in *. set (sp := n_space (get d x)) in *.
+    assert (Hcl : forall B, In B comps -> closed_in N sp B).
+    { intros B HB. apply scc_item_closed. apply Hitems. exact HB. }
+    assert (Hnf : forall B, In B comps -> nfixed sp < nfixed (Rsub N sp B)).
+    { intros B HB. destruct (two_comps_other c1 c2 cr B Hpw HB) as (B' & HB' & Hdis).
+      destruct (Hitems B' HB') as (v0 & _ & _ & Hne & _).
+      destruct B' as [|v B'r]; [contradiction|].
+      assert (Hv : In v (v :: B'r)) by (left; reflexivity).
+      apply strict_nfixed.
+      apply (Rsub_strict N sp B HtS (Hcl B HB) v).
+      - apply (BM_closed_lt N sp _ v (Hcl _ HB') Hv).
+      - apply (BM_closed_free N sp _ v (Hcl _ HB') Hv).
+      - intro HvB. apply (Hdis v HvB Hv). }
+    destruct (scc_components_SI expander F N cm sp x k Hexp HtS Hpc Hk comps d [x] tape Hcl Hpw Hsi)
+      as (Hs1 & Hna & Hfu & Hats & Hinv).
+    { intros a [Ha|[]]. subst a. split; [exact Hx|]. split; [apply subspace_refl|].
+      intros B v HB Hv. apply (BM_closed_free N _ B v (Hcl B HB) Hv). }
+    { left. reflexivity. }
+    { exact Hnf. }
+    pose proof (scc_components_extends expander N cm sp comps d [x] tape) as He.
+    set (c := scc_components expander N cm sp comps d [x] tape) in *.
+    pose proof (nxt_ok_extends N k d _ next He Hnext) as Hn1.
+    assert (Hx1 : x < size (fst (fst (fst c)))) by (apply (extends_lt d _ x He Hx)).
+    assert (Hsp1 : n_space (get (fst (fst (fst c))) x) = sp) by (apply (extends_space d _ x He Hx)).
+    assert (Hsuccx : lvl_ok N F k (lvl_succ N cfg (fst (fst (fst c))) x next (snd c))).
+    { apply lvl_succ_SI; [exact Hs1|exact Hx1|rewrite Hsp1; exact Hk|exact Hn1]. }
+    assert (Hstrict_ok : (forall m, In m (snd (fst c)) -> strict_subspace (n_space (get (fst (fst (fst c))) m)) sp) ->
+                         nxt_ok N k (fst (fst (fst c))) (union_nat next (snd (fst c)))).
+    { intro Hst. apply nxt_ok_union; [exact Hn1|]. intros y Hy. split; [apply Hats; exact Hy|].
+      pose proof (strict_nfixed _ _ (Hst y Hy)). lia. }
+    destruct (snd (fst (fst c))) as [|[|]| | | |] eqn:Eres; simpl;
+      try (split; [exact Hs1|]; split; [exact Hn1|]; split; [exact Hna|exact Hfu]).
+    destruct Hinv as [Hinv|Hinv].
+    + rewrite Hinv. rewrite Nat.eqb_refl. exact Hsuccx.
+    + destruct (snd (fst c)) as [|y [|y2 yr]] eqn:Eats; simpl; try (split; [exact Hs1|apply Hstrict_ok; exact Hinv]).
+      destruct (Nat.eqb y x); [exact Hsuccx|]. simpl. split; [exact Hs1|apply Hstrict_ok; exact Hinv].
+Qed.
+
+Lemma scc_level_SI : forall expander F N cfg cm k, exp_good F expander -> forall cur d next tape, SI N d ->
+  cur_ok N k d cur -> nxt_ok N k d next ->
+  SI N (fst (fst (fst (scc_level expander N cfg cm d cur next tape)))) /\
+  nxt_ok N k (fst (fst (fst (scc_level expander N cfg cm d cur next tape))))
+             (snd (fst (scc_level expander N cfg cm d cur next tape))) /\
+  snd (fst (fst (scc_level expander N cfg cm d cur next tape))) <> RRaised ErrAssert /\
+  (k + 1 <= F -> snd (fst (fst (scc_level expander N cfg cm d cur next tape))) <> RFuel).
+Proof.
+  intros expander F N cfg cm k Hexp cur. induction cur as [|x cur IH]; intros d next tape Hsi Hcur Hnext.
+  - rewrite scc_level_nil. simpl. split; [exact Hsi|]. split; [exact Hnext|]. split; discriminate.
+  - rewrite scc_level_cons.
+    destruct (Hcur x (or_introl eq_refl)) as [Hx Hk].
+    pose proof (lvl_one_SI expander F N cfg cm k d x next tape Hexp Hsi Hx Hk Hnext) as H1.
+    pose proof (lvl_one_extends expander N cfg cm d x next tape) as He.
+    destruct (lvl_one expander N cfg cm d x next tape) as [d1 r n1 t1|d1 n1 t1]; simpl in H1, He.
+    + simpl. exact H1.
+    + destruct H1 as [Hs1 Hn1]. apply IH; [exact Hs1| |exact Hn1].
+      apply (cur_ok_extends N k d d1 cur He). intros y Hy. apply Hcur. right. exact Hy.
+Qed.
+
+Lemma nxt_ok_pos : forall N k d next y, SI N d -> nxt_ok N k d next -> In y next -> 1 <= k.
+Proof.
+  intros N k d next y Hsi Hn Hy. destruct (Hn y Hy) as [H1 H2].
+  destruct (SI_get N d y Hsi H1) as [Ht _].
+  pose proof (P_nfixed_le_length (n_space (get d y))) as H. rewrite (trap_space_length N _ Ht) in H. lia.
+Qed.
+
+Lemma scc_levels_SI : forall expander F N cfg cm, exp_good F expander ->
+  forall fuel k d cur tape, SI N d -> cur_ok N k d cur ->
+  SI N (fst (fst (scc_levels fuel expander N cfg cm d cur tape))) /\
+  snd (fst (scc_levels fuel expander N cfg cm d cur tape)) <> RRaised ErrAssert /\
+  (k + 1 <= F -> match cur with [] => 1 <= fuel | _ => k + 2 <= fuel end ->
+   snd (fst (scc_levels fuel expander N cfg cm d cur tape)) <> RFuel).
+Proof.
+  intros expander F N cfg cm Hexp fuel. induction fuel as [|f IH]; intros k d cur tape Hsi Hcur.
+  - rewrite scc_levels_O. simpl. split; [exact Hsi|]. split; [discriminate|].
+    intros _ H. destruct cur; lia.
+  - rewrite scc_levels_S. destruct cur as [|c0 cr]; [simpl; split; [exact Hsi|]; split; discriminate|].
+    cbv zeta.
+    destruct (scc_level_SI expander F N cfg cm k Hexp (sort_nat (c0 :: cr)) d [] tape Hsi) as (Hs1 & Hn1 & Hna & Hfu).
+    { intros x Hx. apply Hcur. apply sort_nat_In. exact Hx. }
+    { intros y []. }
+    set (l := scc_level expander N cfg cm d (sort_nat (c0 :: cr)) [] tape) in *.
+    destruct (snd (fst (fst l))) eqn:Er; simpl;
+      try (split; [exact Hs1|]; split; [exact Hna|]; intros HF _; apply Hfu; exact HF).
+    destruct (IH (k - 1) (fst (fst (fst l))) (snd (fst l)) (snd l) Hs1) as (Hs2 & Hna2 & Hfu2).
+    { intros y Hy. destruct (Hn1 y Hy) as [H1 H2]. split; [exact H1|]. lia. }
+    split; [exact Hs2|]. split; [exact Hna2|]. intros HF Hfuel. apply Hfu2; [lia|].
+    destruct (snd (fst l)) as [|y0 yr] eqn:En; [lia|].
+    pose proof (nxt_ok_pos N k _ _ y0 Hs1 Hn1 (or_introl eq_refl)). lia.
+Qed.
+
+(* ====================================================================== *)
+(* G. the main function                                                    *)
+(* ====================================================================== *)
+
+Lemma scc_main_step : forall cfg cm f N d tape k,
+  exp_good f (fun N' d' t' => scc_main f N' cfg cm d' t') -> SI N d ->
+  nvars N <= nfixed (n_space (get d 0)) + k ->
+  SI N (fst (fst (scc_main (S f) N cfg cm d tape))) /\
+  snd (fst (scc_main (S f) N cfg cm d tape)) <> RRaised ErrAssert /\
+  (k + 2 <= S f -> snd (fst (scc_main (S f) N cfg cm d tape)) <> RFuel).
+Proof.
+  intros cfg cm f N d tape k Hexp Hsi Hk. rewrite scc_main_S. cbv zeta.
+  assert (Hpos : 0 < size d) by (destruct Hsi as ((Hp & _) & _); exact Hp).
+  destruct (sources_in_b N (n_space (get d 0))) as [|s0 sr] eqn:Es.
+  - destruct (scc_levels_SI _ f N cfg cm Hexp (S f) k d [0] tape Hsi) as (H1 & H2 & H3).
+    + intros x [Hx|[]]. subst x. split; assumption.
+    + split; [exact H1|]. split; [exact H2|]. intro HF. apply H3; lia.
+  - destruct (Nat.ltb (max_motifs cfg) (Nat.pow 2 (length (s0 :: sr)))).
+    + simpl. split; [exact Hsi|]. split; discriminate.
+    + destruct (SI_get N d 0 Hsi Hpos) as [HtS _].
+      pose proof (trap_space_length N _ HtS) as HS.
+      set (sp := n_space (get d 0)) in *.
+      assert (Hm : forall m, In m (ff_motifs N sp) -> trap_space N m /\ strict_subspace m (n_space (get d 0))).
+      { intros m Hm. split; [apply (ff_motif_trap N sp m HtS Hm)|].
+        apply (ff_motif_strict N sp m HS); [rewrite Es; discriminate|exact Hm]. }
+      set (da := ensure_all N d 0 (ff_motifs N sp)).
+      assert (Hsa : SI N da) by (unfold da; apply SI_ensure_all; assumption).
+      rewrite ensure_children_fst. fold da.
+      set (d2 := set_empty_seeds (clear_cands (upd_node da 0 (fun y => set_exp y true)) 0) 0).
+      assert (Hs2 : SI N d2).
+      { unfold d2. apply SI_set_empty_seeds. apply SI_clear_cands. apply SI_upd_flag; [constructor|exact Hsa]. }
+      assert (He2 : extends da d2).
+      { unfold d2. eapply extends_trans; [apply upd_flag_extends; constructor|].
+        eapply extends_trans; [apply clear_cands_extends|apply set_empty_seeds_extends]. }
+      set (cur := union_nat [] (snd (ensure_children N d 0 (ff_motifs N sp) []))).
+      destruct (scc_levels_SI _ f N cfg cm Hexp (S f) (k - 1) d2 cur tape Hs2) as (H1 & H2 & H3).
+      * intros x Hx. unfold cur in Hx. apply union_nat_In in Hx. destruct Hx as [[]|Hx].
+        destruct (SI_ensure_children_ids N _ d 0 [] Hsi Hpos Hm x Hx) as [[]|[Hlt Hst]].
+        fold da in Hlt, Hst.
+        split; [apply (extends_lt da d2 x He2 Hlt)|].
+        rewrite (extends_space da d2 x He2 Hlt).
+        pose proof (strict_nfixed _ _ Hst). fold sp in H. lia.
+      * split; [exact H1|]. split; [exact H2|]. intro HF. apply H3; [lia|]. destruct cur; lia.
+Qed.
+
+Lemma scc_main_good : forall cfg cm f, exp_good f (fun N' d' t' => scc_main f N' cfg cm d' t').
+Proof.
+  intros cfg cm f. induction f as [|f IH]; intros N d tape Hsi.
+  - rewrite scc_main_O. simpl. split; [exact Hsi|]. split; [apply extends_refl|]. split; [discriminate|].
+    intros m _ H. lia.
+  - destruct (scc_main_step cfg cm f N d tape (nvars N) IH Hsi) as (H1 & H2 & _); [lia|].
+    split; [exact H1|]. split; [apply scc_main_extends|]. split; [exact H2|].
+    intros m Hm HF. destruct (scc_main_step cfg cm f N d tape m IH Hsi Hm) as (_ & _ & H3). apply H3. exact HF.
+Qed.
+
+Lemma expand_scc_snd : forall fuel N cfg d maa tape,
+  snd (expand_scc fuel N cfg d maa tape) = snd (fst (scc_main fuel N cfg maa d tape)).
+Proof.
+  intros. unfold expand_scc. destruct (scc_main fuel N cfg maa d tape) as [[d1 r] t]. reflexivity.
+Qed.
+
+Theorem expand_scc_EdgeStrict : forall fuel N cfg d maa tape, 1 <= max_motifs cfg ->
+  SWF N d -> TrapNodes N d -> EdgeStrict d -> EdgeStrict (fst (expand_scc fuel N cfg d maa tape)).
+Proof.
+  intros fuel N cfg d maa tape _ Hs Ht He. rewrite expand_scc_fst.
+  destruct (scc_main_good cfg maa fuel N d tape (SI_of_SWF N d Hs Ht He)) as ((_ & H & _) & _). exact H.
+Qed.
+
+(* the assertion main_node_id != main_succ_id never fails, nor does the assertion on nodes without source SCC *)
+Theorem expand_scc_no_assert : forall fuel N cfg d maa tape, 1 <= max_motifs cfg ->
+  SWF N d -> TrapNodes N d -> EdgeStrict d -> snd (expand_scc fuel N cfg d maa tape) <> RRaised ErrAssert.
+Proof.
+  intros fuel N cfg d maa tape _ Hs Ht He. rewrite expand_scc_snd.
+  destruct (scc_main_good cfg maa fuel N d tape (SI_of_SWF N d Hs Ht He)) as (_ & _ & H & _). exact H.
+Qed.
+
+Theorem expand_scc_terminates : forall fuel N cfg d maa tape, 1 <= max_motifs cfg ->
+  SWF N d -> TrapNodes N d -> EdgeStrict d -> nvars N + 2 <= fuel ->
+  snd (expand_scc fuel N cfg d maa tape) <> RFuel.
+Proof.
+  intros fuel N cfg d maa tape _ Hs Ht He Hf. rewrite expand_scc_snd.
+  destruct (scc_main_good cfg maa fuel N d tape (SI_of_SWF N d Hs Ht He)) as (_ & _ & _ & H).
+  apply (H (nvars N)); [lia|exact Hf].
+Qed.
+
+Print Assumptions expand_scc_EdgeStrict.
+Print Assumptions expand_scc_no_assert.
+Print Assumptions expand_scc_terminates.
